@@ -8,7 +8,8 @@ From Coq Require Import NArith ZArith List.
 From Blue Require Import Gen.Const_Table Table.Model Table.ModelBloom Table.ModelSst Table.Ref
   Table.BlockBase Table.BuildProofs Table.CursorProofs Table.DivideProofs Table.BloomProofs
   Table.SstCursorProofs Table.BuildSstProofs Table.SstProofs Table.MultiProofs Table.AcceptProofs
-  Table.ModelWire Table.WireProofs.
+  Table.ModelWire Table.WireProofs Table.ModelBytes Table.BytesProofs Table.BlockBytesProofs Table.FileBytesProofs.
+From Blue Require Wire.Model Wire.ModelMsg Wire.Spec Wire.ProofsScalar.
 Import ListNotations.
 
 Definition size_ok (enc_size : bentry -> N) : Prop := forall e, (0 < enc_size e)%N.
@@ -203,6 +204,85 @@ Proof.
   split; [exact meta_enc_real_short|exact meta_real_roundtrip].
 Qed.
 
+(* ---------------------------------------------------------------- the byte layer *)
+(* The model's bytes are prototk's bytes.  The shapes of KeyValuePut / KeyValueDel / KeyValueEntry
+   (ModelBytes.kv_entry_shape, retyped from the #[prototk(..)] attributes of sst/src/lib.rs) are
+   messages of the Wire area's deep embedding (C15); for every record a builder can make
+   (u64 fields, byte strings, size below 2^64):
+   the model's record bytes are the reference wire encoding of the shape, their length is the size
+   the builder computes with (enc_size_real), prototk's unpack of those bytes followed by anything
+   returns the record and leaves the rest untouched. *)
+Theorem C10_entry_codec : forall be rest, rec_ok be -> (enc_size_real be < Wire.Model.W64)%N ->
+  Wire.Model.bytes_ok rest ->
+  encode_entry be = Wire.Spec.ref_msg kv_entry_shape (entry_val be) /\
+  len (encode_entry be) = enc_size_real be /\
+  Wire.ModelMsg.msg_unpack kv_entry_shape (encode_entry be ++ rest) = Wire.Model.Ok (entry_val be, rest) /\
+  entry_of_val (entry_val be) = Some be.
+Proof.
+  intros be rest Hr Hs Hrest. destruct (entry_codec be rest Hr Hs Hrest) as (H1 & _ & H3 & H4).
+  split; [apply encode_entry_is_ref|]. split; [exact H1|]. split; [exact H3|exact H4].
+Qed.
+
+(* BlockMetadata (the value of an index entry): the model's bytes are the reference encoding with
+   a zero checksum field, of the length the builder computes with, and prototk's unpack returns
+   start, limit and the checksum, whatever the checksum (CRC32C itself is not modelled) *)
+Theorem C10_metadata_codec : forall s l crc,
+  (s < Wire.Model.W64)%N -> (l < Wire.Model.W64)%N -> (crc < Wire.Model.W32)%N ->
+  meta_enc_real s l = meta_bytes s l 0 /\ len (meta_enc_real s l) = meta_len s l /\
+  Wire.ModelMsg.msg_unpack block_metadata_shape (meta_bytes s l crc) = Wire.Model.Ok (metadata_val s l crc, []).
+Proof.
+  intros s l crc Hs Hl Hc. destruct (meta_codec s l crc Hs Hl Hc) as (H1 & H2).
+  split; [apply meta_enc_real_is_ref|]. split; [now rewrite meta_enc_real_is_ref|exact H1].
+Qed.
+
+(* THE BLOCK THEOREM ON REAL BYTES.  Take the bytes a BlockBuilder writes for any accepted
+   sequence under any options (block_bytes: records, tag 10 + packed restart array, tag 11 +
+   num_restarts — compared byte for byte with the implementation's sealed blocks on every run).
+   Parse them as the Rust does: Block::new reads the footer, restart_point reads four bytes,
+   extract_key runs prototk's KeyValueEntry decoder on bytes[offset..restarts_boundary] and
+   computes next_offset from what the decoder left.  Every finite cursor program over those raw
+   bytes observes exactly what the reference cursor over the accepted sequence observes. *)
+Theorem C10_block_bytes_cursor_refines : forall o es blk prog, entries_wire_ok es ->
+  build_block enc_size_real o es = Ok blk ->
+  bytes_run (block_bytes blk) prog = Ok (map (fun x => Ok x) (ref_run es (-1) prog)).
+Proof. intros o es blk prog He Hb. exact (block_bytes_cursor_refines o es blk He Hb prog). Qed.
+
+Theorem C10_block_bytes_load : forall o es blk key ts, entries_wire_ok es ->
+  build_block enc_size_real o es = Ok blk ->
+  bytes_load (block_bytes blk) key ts = Ok (load_spec es key ts).
+Proof. intros o es blk key ts He Hb. exact (block_bytes_load o es blk He Hb key ts). Qed.
+
+(* the file layer's encodings.  An SstEntry frame (PlainBlock = variant 0, FilterBlock = variant 1)
+   is tag, varint length, payload; its length is the frame_len the model lays the file out with and
+   prototk's unpack returns the payload and leaves what follows; the payload of a data or index
+   frame is a sealed block of block_len bytes; the FinalBlock of the declared shape has final_len
+   bytes, decodes to its fields, and ends with the eight bytes of final_block_offset. *)
+Theorem C10_file_layout_codecs :
+  (forall variant payload rest, (variant < 2)%nat -> Wire.Model.bytes_ok payload ->
+     (frame_len (len payload) < Wire.Model.W64)%N -> Wire.Model.bytes_ok rest ->
+     frame_bytes variant payload = [if Nat.eqb variant 0 then 82 else 106]%N ++ varint (len payload) ++ payload /\
+     len (frame_bytes variant payload) = frame_len (len payload) /\
+     Wire.ModelMsg.msg_unpack sst_entry_shape (frame_bytes variant payload ++ rest) =
+       Wire.Model.Ok (Wire.ModelMsg.VV variant (Wire.ModelMsg.VB payload), rest)) /\
+  (forall o es blk, entries_wire_ok es -> build_block enc_size_real o es = Ok blk ->
+     len (block_bytes blk) = block_len blk) /\
+  (forall is il ic fs fl fc setsum smallest biggest offset (fb : final_block),
+     (is < Wire.Model.W64)%N -> (il < Wire.Model.W64)%N -> (ic < Wire.Model.W32)%N ->
+     (fs < Wire.Model.W64)%N -> (fl < Wire.Model.W64)%N -> (fc < Wire.Model.W32)%N ->
+     Wire.Model.bytes_ok setsum -> length setsum = 32%nat ->
+     (smallest < Wire.Model.W64)%N -> (biggest < Wire.Model.W64)%N -> (offset < Wire.Model.W64)%N ->
+     fb_index fb = (is, il) -> fb_filter fb = (fs, fl) -> fb_smallest fb = smallest -> fb_biggest fb = biggest ->
+     let bs := final_bytes is il ic fs fl fc setsum smallest biggest offset in
+     len bs = final_len fb /\
+     Wire.ModelMsg.msg_unpack final_block_shape bs =
+       Wire.Model.Ok (final_val is il ic fs fl fc setsum smallest biggest offset, []) /\
+     skipn (length bs - 8) bs = Wire.Model.le_bytes 8 offset).
+Proof.
+  split; [exact frame_codec|]. split; [|exact final_codec].
+  intros o es blk He Hb. destruct (built_facts o es blk He Hb) as (_ & _ & Hrec & Hbd & _ & Hnr).
+  exact (block_len_is_length blk Hrec Hbd Hnr).
+Qed.
+
 (* ---- non-vacuity: a concrete size function, options and a non-trivial accepted sequence ---- *)
 Definition enc_size_example (be : bentry) : N := (3 + len (be_frag be))%N.
 
@@ -232,3 +312,14 @@ Example build_sst_example :
       [([97], 5, Some [1]); ([97], 3, None); ([97; 98], 9, Some []); ([98], 0, None)]%N = Ok t /\
     length (t_index t) = 4%nat.
 Proof. eexists. split; [vm_compute; reflexivity|reflexivity]. Qed.
+
+(* the byte-level statements on a concrete block *)
+Example block_bytes_example :
+  exists blk,
+    build_block enc_size_real {| o_bri := 100; o_kri := 2 |}
+      [([97], 5, Some [1]); ([97], 3, None); ([97; 98], 9, Some []); ([98], 0, None)]%N = Ok blk /\
+    length (block_bytes blk) = 56%nat /\
+    bytes_run (block_bytes blk) [ONext; ONext; OPrev; OSeek [98]%N; OPrev] =
+      Ok [Ok (Some ([97], 5, Some [1])); Ok (Some ([97], 3, None)); Ok (Some ([97], 5, Some [1]));
+          Ok (Some ([98], 0, None)); Ok (Some ([97; 98], 9, Some []))]%N.
+Proof. eexists. split; [vm_compute; reflexivity|]. split; vm_compute; reflexivity. Qed.
